@@ -97,6 +97,41 @@ for which in ("full", "empty"):
             c.setup = setup_for(where)
             con.cases.append(c)
 
+    # a context that is neither producer nor consumer YET (the usual `if not fifo.full(): fifo.push(x)`: the query comes
+    # before the first push): the flag is a fresh signal driven at the end of the context.  Every further query from
+    # the same context must return that SAME signal and register no second driver -- a second fresh signal would
+    # leave the first one undriven.
+    for nth in (1, 2, 3):
+        def spec(sx, self, which=which, nth=nth):
+            it = sx.it
+
+            def holds(res):
+                first = it.first_result if nth > 1 else res
+                return isinstance(res, SObj) and res.kind is _Stub and res is first and len(it.deferred) == 1
+
+            return C.Pred(holds, "one deferred flag signal per querying context, one registered driver")
+
+        c = Case(f"synchronised,queried-in-third-context,query-{nth}", [fifo_shape(True)], spec)
+        c.native = False
+        c.custom_replay = "contracts.c14_views.replay_flag_queried_twice"
+
+        def setup(it, ctx, args, env, nth=nth, which=which):
+            setup_for("other")(it, ctx, args, env)
+            it.deferred = []
+            ctx.global_overlay[(MOD, "at_end_of_context")] = _at_end
+            ctx.global_overlay[(MOD, "Signal")] = SObj(_Stub, f_role="signal")
+            fifo = args[0]
+            fifo.fields[f"_{which}_indirect_owner"] = None  # as Fifo.__init__ leaves it
+            fifo.fields[f"_{which}_indirect_name"] = "name"
+            fn = C.CONTRACTS[f"{MOD}:Fifo._cmp_{which}"].fn  # the function under contract (body interpreted)
+            for k in range(nth - 1):
+                r = it.call(I.BoundMethod(fn, fifo), [], {})
+                if k == 0:
+                    it.first_result = r
+
+        c.setup = setup
+        con.cases.append(c)
+
     con = contract(f"{MOD}:Fifo._impl_{which}_indirect", PROPS)
     for where in ("tx", "rx", "other"):
         def spec(sx, self, which=which, where=where):
@@ -204,3 +239,48 @@ for mode in (StackMode.NO_OVERFLOW, StackMode.DROP_OLD):
 
     c.setup = setup
     con.cases.append(c)
+
+
+_TWICE_DESIGN = '''
+from __future__ import annotations
+import re
+from cohdl import Entity, Port, Bit, BitVector, std
+
+class Top(Entity):
+    clk = Port.input(Bit)
+    din = Port.input(BitVector[4])
+    wr = Port.input(Bit)
+    rd = Port.input(Bit)
+    f1 = Port.output(Bit)
+    dout = Port.output(BitVector[4])
+    def architecture(self):
+        fifo = std.Fifo[BitVector[4], 4](delay=1)
+        ctx = std.SequentialContext(std.Clock(self.clk))
+        @ctx
+        def producer():
+            self.f1 <<= fifo.full()              # first query
+            if self.wr and not fifo.full():      # second query, before the first push
+                fifo.push(self.din)
+        @ctx
+        def consumer():
+            if self.rd and not fifo.empty():
+                self.dout <<= fifo.pop()
+
+t = std.VhdlCompiler.to_string(Top)
+src = re.search(r"buffer_f1 <= (\\w+);", t).group(1)
+print("F1_READS", src, "DRIVEN" if re.search(rf"^\\s*{src} <=", t, re.M) else "UNDRIVEN")
+'''
+
+
+def replay_flag_queried_twice(payload):
+    from contracts.c06_extra import _run_design
+
+    rc, out = _run_design(_TWICE_DESIGN)
+    return {"reproduced": rc == 0 and "UNDRIVEN" in out, "detail": out[-300:]}
+
+
+def _at_end(fn):
+    """at_end_of_context stand-in: records the deferred driver"""
+
+
+I.register_model(_at_end, lambda it, fn: it.deferred.append(fn))
